@@ -46,6 +46,10 @@ CLAIMED = {
             'TLA+ model AsyncExpect (expect_async + PatternWaiter on an asyncio loop/transport model, over ExpectImpl) checked by TLC for every arrival schedule; histories mixing blocking and awaited calls run through the real expect_async on a virtual-time asyncio loop with a hand-fed transport, traces validated by TLC against the contract ExpectAbs (ExpectTrace)',
             'TLC proves conservation (also of what the caller is given), no lost result, TIMEOUT only without occurrence, genuine/leftmost/lowest index on the awaited path; real awaited executions are judged event by event against the same contract the blocking path is bound to (C01-C04), so parity is decided by TLC',
             'event loop / read transport semantics are those of harness/vloop.py (CPython 3.12); _async_pre_await.py not importable here', '5 C14', 'async'),
+    'C17': ('model_checking',
+            'TLA+ model Pxssh (login() as written - two-phase decision procedure, prompt synchronisation, set_unique_prompt - against a reactive ssh server at dialogue-token level) checked by TLC over every server configuration x options; the real login() run against a scripted server for every configuration, transcripts validated by TLC (PxsshTrace clauses) and compared with the model\'s prediction',
+            'TLC proves the five invariants with the named deviations off and exhibits the witnesses of the two recorded findings with the code as it is; 2,800 (quick) / ~26,000 (thorough) real login() dialogues are judged by TLC clause by clause; the as-is model predicts result and client transcript of each',
+            'scripted ssh (no network); token-level model; virtual timeouts', '5 C17', 'pxssh'),
     'C20': ('model_checking',
             'TLA+ decision table PatternForms enumerated and checked for consistency by TLC; one implementation test per table row (MongoDB-style): same scripted stream under the form and under the reference pattern',
             'every row of the table (mode x ignorecase x form x flag set x entry point) is executed on the real code over discriminating streams; rejected rows must raise TypeError with nothing read and pending text intact',
@@ -102,6 +106,8 @@ def main():
              'kind_free_text': 'TLC-enumerated split / which / configuration cases, one implementation test per case, real probe children'},
             {'name': 'repl', 'path': 'spec/Repl.tla spec/ExpectTrace.tla harness/checks/repl.py', 'serves_properties': ['C16'],
              'kind_free_text': 'TLC model of run_command + TLC trace validation on a scripted REPL + real bash/python REPLs'},
+            {'name': 'pxssh', 'path': 'spec/Pxssh.tla spec/PxsshTrace.tla harness/fakessh.py harness/checks/pxssh_check.py', 'serves_properties': ['C17'],
+             'kind_free_text': 'TLC model of login() vs reactive server + TLC validation of real login() transcripts + model prediction per dialogue'},
             {'name': 'patternforms', 'path': 'spec/PatternForms.tla harness/checks/c20.py', 'serves_properties': ['C20'],
              'kind_free_text': 'TLC-enumerated decision table, one implementation test per row'},
         ],
